@@ -272,7 +272,8 @@ impl<'a> FragGen<'a> {
         if d == 0 || self.r.chance(1, 2) { return self.leaf(bound); }
         // now and then at the i64 limits: checked arithmetic is the Overflow error, not a wrapped index
         if self.r.chance(1, 40) {
-            let l = Box::new(self.leaf(bound));
+            // (a literal operand: an enumerate index is a Number at run time, its sums are float arithmetic and do not overflow)
+            let l = Box::new(Ce::Lit(self.r.range(0, 3)));
             return match self.r.below(4) {
                 0 => Ce::Add(l, Box::new(Ce::Lit(i64::MAX))),
                 1 => Ce::Mul(Box::new(Ce::Lit(i64::MAX / 2 + 1)), Box::new(Ce::Lit(2))),
@@ -424,6 +425,8 @@ fn gen_graph(r: &mut Rng) -> Vec<GN> {
     let n = 1 + r.below(5);
     let mut g: Vec<GN> = (0..n).map(|i| GN { name: names[i].to_string(), edges: vec![] }).collect();
     for i in 0..n { for j in 0..n { if r.chance(2, 5) { let w = match r.below(4) { 0 => None, 1 => Some(r.range(-4, 9) as f64 / 2.0), 2 => Some(0.0), _ => Some(r.range(1, 5) as f64) }; g[i].edges.push((names[j].to_string(), w)); } } }
+    // now and then an edge to a node that has no entry of its own: it is a destination, not one of nodes(G)
+    if r.chance(1, 3) { let i = r.below(n); let w = if r.chance(1, 2) { None } else { Some(2.5) }; g[i].edges.push((r.pick(&["Zed", "n3"]).to_string(), w)); }
     for i in 0..n { for k in (1..g[i].edges.len()).rev() { let j = r.below(k + 1); g[i].edges.swap(k, j); } }
     // `Graph { P, Q }` without any edge list is read as a block function: keep one edge
     if g.iter().all(|x| x.edges.is_empty()) { let d = g[n - 1].name.clone(); g[0].edges.push((d, None)); }
